@@ -10,11 +10,15 @@
   * `C16_flag_deviates` (F7) and `C16_zero_duration_deviates` (F11): the two corners where the
     code is *not* the contract, as theorems about the model (the monitor reports them on the
     implementation);
+  * `C16_no_leak`: the fail-closed argument — whenever the queue branch of `pick_next` pops a
+    TunnelSent of a side whose blocking is active, the packet carries the bypass flag and that
+    side's blocking is bypassable (given the routing invariant `SimQueue.WF`, which
+    `C16_queues_wellformed` shows to hold initially and after every iteration);
   * `C16_blockingBegin_at_due`: BlockingBegin is stamped with the action's due time;
   * `C16_blockingEnd_at_expiry`: the blocking-expiry branch of `pick_next` is the only place the
     expiry is cleared by time; it emits one BlockingEnd for that side stamped with the expiry.
 -/
-import MbVerif.Proofs.SimBlocking
+import MbVerif.Proofs.SimNoLeak
 import MbVerif.Spec.C16
 
 namespace Mb.C16
@@ -111,6 +115,21 @@ theorem C16_blockingEnd_at_expiry (st st' : St σ) (b : Nat) (c : Bool) (e : Sim
     e.event = .blockingEnd ∧ e.client = c ∧ (st'.side c).blockingUntil = none ∧
     ∃ u, (st.side c).blockingUntil = some u ∧ (st.now ≤ u → u - st.now ≤ durMax → e.time = u) :=
   pickBlockExp_spec hd hp hsome
+
+/-- **No leak** (fail closed): a TunnelSent popped on a side with active blocking has the bypass
+    flag, and the side's blocking is bypassable. -/
+theorem C16_no_leak (st st' : St σ) (q : Nat) (qid : Queue) (c : Bool) (e : SimEvent) (u : Int)
+    (hw : st.sq.WF) (hd : pickDecide st = .ok (.queue q qid c)) (hp : pickQueue st q qid c = .ok (e, st'))
+    (hts : e.event = .tunnelSent) (hblk : (st.side e.client).blockingUntil = some u) :
+    e.bypass = true ∧ (st.side e.client).blockingBypassable = true :=
+  pickQueue_no_leak hw hd hp (by simp [isTS, hts]) hblk
+
+/-- the routing invariant the no-leak lemma needs holds for every parsed trace and is kept by
+    every iteration of the main loop -/
+theorem C16_queues_wellformed (ρ : Oracle σ) :
+    (∀ trace delay, (parseTrace trace delay).WF) ∧
+    (∀ (st st' : St σ) (r : StepRec), st.sq.WF → step ρ st = .ok (some (r, st')) → st'.sq.WF) :=
+  ⟨fun trace delay => (parseTrace_spec trace delay).1, fun _ _ _ hw h => (step_conserve ρ hw h).1⟩
 
 /-- non-vacuity of the conditional theorems: a running non-replace extension -/
 example : blockUpdate (some 10) true 0 20 true false = (some 20, true) := by decide
